@@ -120,7 +120,7 @@ fn arg() -> BoxedStrategy<Arg> {
         3 => (0u8..=5).prop_map(Arg::Small),
         4 => (prop_oneof![Just(6u8), Just(7), Just(8), Just(9), Just(11), Just(12), Just(13), Just(32), Just(43), Just(63), 0u8..64], -1i8..=1).prop_map(|(k, d)| Arg::Pow(k, d)),
         4 => (-2i8..=2).prop_map(Arg::N),
-        3 => (-2i8..=2).prop_map(Arg::Count),
+        5 => prop_oneof![3 => Just(-1i8), 2 => Just(0i8), 1 => Just(1i8), 1 => -2i8..=2].prop_map(Arg::Count),
         3 => prop_oneof![Just(0u8), Just(1), Just(63), Just(64), any::<u8>()].prop_map(Arg::Max),
         4 => any::<u16>().prop_map(Arg::Frac),
         1 => any::<u64>().prop_map(Arg::Raw),
